@@ -33,7 +33,11 @@ def char_code(lit):
 def regex_meta():
     """the set of bytes regex::escape escapes"""
     pats = glob.glob(os.path.expanduser("~/.cargo/registry/src/*/regex-syntax-*/src/lib.rs"))
-    lock = open(os.path.join(common.REPO, "Cargo.lock")).read()
+    lock = ""
+    for cand in (os.path.join(common.REPO, "Cargo.lock"), os.path.join(common.HARNESS, "Cargo.lock"), "/repo/Cargo.lock"):
+        if os.path.exists(cand):        # Cargo.lock is untracked: a fresh worktree of the repository has none
+            lock = open(cand).read()
+            break
     m = re.search(r'name = "regex-syntax"\nversion = "([^"]+)"', lock)
     want = m.group(1) if m else None
     for p in sorted(pats):
